@@ -49,6 +49,13 @@ def gen_base(rng, name):
     crits = rng.sample(c["criteria"], k)
     nabs = rng.choice([0, 0, 1, 1, 2])
     names = crits + rng.sample(ABSENT, nabs)
+    if rng.random() < 0.12:
+        # criteria labelled by integers (years): a condition key is a string, so "2020" names NO criterion of this
+        # matrix - it is an absent criterion like any other
+        years = rng.sample(range(2015, 2030), m)
+        names = [str(years[c["criteria"].index(cr)]) for cr in crits] + rng.sample(ABSENT, nabs)
+        c["criteria"] = years
+        c["tags"] = list(c.get("tags", [])) + ["integer_criteria_labels"]
     conds = []
     for cr in names:
         if cr in c["criteria"]:
@@ -190,7 +197,7 @@ def run(ctx):
         if "error" not in o:
             # survivors keep their rows and the criteria
             src = dict(zip(c["alternatives"], c["matrix"]))
-            if o["criteria"] != c["criteria"] or any(src[a] != r for a, r in zip(o["alternatives"], o["matrix"])):
+            if o["criteria"] != [str(x) for x in c["criteria"]] or any(src[a] != r for a, r in zip(o["alternatives"], o["matrix"])):
                 ctx.oracle_fail(c, {"oracle": "a surviving row or the criteria changed"})
     ctx.traces_validated = len(cases)
     if ctx.tier == "thorough":
